@@ -21,7 +21,8 @@ def url_grid(tier):
     if tier not in URL_GRIDS:
         tg = [t for t in nvar.toggles(tier) if t[0] in ("t_scheme", "t_auth", "t_sub", "t_port", "t_hostcase", "t_slash", "t_index", "t_frag",
                                                         "t_item", "t_wrap", "t_esc_path")]
-        URL_GRIDS[tier] = grid.Grid("urls", tg + [("x_host", [""] + HOSTS)], free=nvar.BASE[:2] + OPTS)
+        URL_GRIDS[tier] = grid.Grid("urls", tg + [("x_host", [""] + HOSTS), ("x_scheme", ["", "s3://", "git+ssh://", "a1.b-c://", "ftp://"])],
+                                    free=nvar.BASE[:2] + OPTS)
     return URL_GRIDS[tier]
 
 
@@ -97,6 +98,11 @@ def evaluate_url(case):
             if v in u:
                 u = u.replace(v, xh, 1)
                 break
+    xs = case.get("x_scheme", "")
+    if xs and not case.get("t_wrap", ""):
+        # a scheme that is not letters-only (RFC 3986 allows digits, '+', '-', '.')
+        import re as _re
+        u = xs + _re.sub(r"^\s*(?:[a-zA-Z]+:)?(?://)?", "", u)
     fails, tags = [], []
     check_url(u, case, fails, tags)
     return fails, tags, u
